@@ -39,6 +39,8 @@ type Env struct {
 	simStart   time.Time
 	SimTime    time.Duration
 	Steps      int
+	Evals      int
+	cases      []uint64
 	sample     []string
 }
 
@@ -116,6 +118,25 @@ func (e *Env) ProbeN(name string, n int) { e.Probes[name] += n }
 
 // Nontrivial marks the run as non-trivial by the check's stated rule.
 func (e *Env) Nontrivial() { e.nontrivial = true }
+
+// AddEvals counts n evaluated cases inside this run (e.g. enumerated crash
+// points or bit positions); a run without AddEvals counts as one evaluation.
+func (e *Env) AddEvals(n int) { e.Evals += n }
+
+// Case registers one distinct non-trivial case evaluated inside this run
+// (enumeration checks); it is identified by the hash of the given values.
+func (e *Env) Case(vals ...uint64) {
+	h := uint64(0xcbf29ce484222325)
+	for _, v := range vals {
+		for k := 0; k < 8; k++ {
+			h = (h ^ (v & 0xff)) * 0x100000001b3
+			v >>= 8
+		}
+	}
+	e.cases = append(e.cases, h)
+	e.Evals++
+	e.nontrivial = true
+}
 
 // Step counts one harness step.
 func (e *Env) Step() { e.Steps++ }
